@@ -294,8 +294,9 @@ class FnEffect:
             ek = self.W.elem_kind(self.kind(s.iter))
             for _ in range(3):
                 before = dict(self.env)
-                el = EMPTY if is_scalar(ek) else self.iter_elem(it, s.iter)
-                self.store(s.target, el, None, s, elementwise=True)
+                if not self.bind_zip(s.target, s.iter, s):
+                    el = EMPTY if is_scalar(ek) else self.iter_elem(it, s.iter)
+                    self.store(s.target, el, None, s, elementwise=True)
                 self.block(s.body)
                 self.env = self.join_env(before, self.env)
                 if self.env == before:
@@ -421,8 +422,9 @@ class FnEffect:
             for g in e.generators:
                 it = self.ev(g.iter)
                 ek = self.W.elem_kind(self.kind(g.iter))
-                el = EMPTY if is_scalar(ek) else self.iter_elem(it, g.iter)
-                self.store(g.target, el, None, e, elementwise=True)
+                if not self.bind_zip(g.target, g.iter, e):
+                    el = EMPTY if is_scalar(ek) else self.iter_elem(it, g.iter)
+                    self.store(g.target, el, None, e, elementwise=True)
                 for c in g.ifs:
                     self.ev(c)
             if isinstance(e, ast.DictComp):
@@ -463,6 +465,30 @@ class FnEffect:
                 self.ev_slice(x)
             return EMPTY
         return self.ev(sl)
+
+    def bind_zip(self, target, it_node, stmt) -> bool:
+        """for a, b in zip(x, y) / for i, a in enumerate(x): bind position-wise."""
+        if not (isinstance(it_node, ast.Call) and isinstance(it_node.func, ast.Name) and not it_node.keywords
+                and it_node.func.id in ("zip", "enumerate") and it_node.func.id not in self.env
+                and isinstance(target, (ast.Tuple, ast.List))):
+            return False
+        if any(isinstance(a, ast.Starred) for a in it_node.args) or any(isinstance(t, ast.Starred) for t in target.elts):
+            return False
+        if it_node.func.id == "zip":
+            if len(it_node.args) != len(target.elts):
+                return False
+            pairs = list(zip(target.elts, it_node.args))
+        else:
+            if len(target.elts) != 2 or not it_node.args:
+                return False
+            self.store(target.elts[0], EMPTY, None, stmt)
+            pairs = [(target.elts[1], it_node.args[0])]
+        for t, a in pairs:
+            av = self.ev(a)
+            ek = self.W.elem_kind(self.kind(a))
+            el = EMPTY if is_scalar(ek) else self.iter_elem(av, a)
+            self.store(t, el, None, stmt, elementwise=True)
+        return True
 
     def iter_elem(self, it: AV, node) -> AV:
         """Element obtained by iterating ``it``; TimedList / MapSet iteration goes
